@@ -1181,6 +1181,14 @@ def kinds_domain():
     }
 
 
+def leaf_inline(prog):
+    """inline policy for the single-check parser: its module-level helpers
+    (handler lookup and the like), not the check classes."""
+    from ..dte import inline_helpers
+    return inline_helpers(prog, modules={PARSER}, classes=False,
+                          exclude={PARSER + '.parse_rule'})
+
+
 def parse_rule_paths(ctx):
     """Paths of parse_rule with the text / list translators inlined."""
     prog = ctx.prog
@@ -1249,7 +1257,7 @@ def check_const(ctx):
                witness={'input': k, 'outcomes': sorted(outs)})
     # '@' and '!' through the leaf parser
     pc = prog.func(PARSER + '._parse_check')
-    en2 = Enumerator(prog, pc, handler_paths=True)
+    en2 = Enumerator(prog, pc, handler_paths=True, inline=leaf_inline(prog))
     p2 = en2.run()
     prm = pc.params[0]
     for k, want in (("'@'", 'true'), ("'!'", 'false')):
